@@ -28,7 +28,7 @@ ANCHORS = ["model/nodes.py:Var.transform", "model/nodes.py:_transform_var_with_b
 ASSUMPTIONS = ["TFP distributions, bijectors and default event-space bijectors are trusted",
                "float32 tolerance 5e-5*(1+|terms|), x64 1e-9"]
 WORKERS = 16
-TIMEOUT = {"quick": 900, "thorough": 3600}
+TIMEOUT = {"quick": 1500, "thorough": 10800}
 
 POS = ["Gamma", "InverseGamma", "HalfNormal", "HalfCauchy", "Exponential", "LogNormal"]
 UNIT = ["Beta", "Uniform"]
